@@ -239,6 +239,39 @@ pub fn candidates(p: &Position) -> Vec<Candidate> {
     let mut inf = o.clone();
     inf.amount += 1_000_000;
     v.push(Candidate { edit: "inflated-amount".into(), tx: pay(&inf), tx2: None, control: false });
+    // every position of a bad input in lists of two and three inputs, mixed with the signer's own
+    // valued (O) and zero-amount (Z) inputs: a check that stops early or looks at one position only
+    {
+        let z = out_slip(&att.public, 0);
+        let o2 = own.get(1).cloned();
+        let mut inf2 = o.clone();
+        inf2.amount += 5;
+        for (bname, bad) in [("foreign", t.clone()), ("non-existent", ne.clone()), ("inflated", inf2)] {
+            let mut lists: Vec<(&str, Vec<Slip>)> = vec![
+                ("bad,O", vec![bad.clone(), o.clone()]),
+                ("Z,bad", vec![z.clone(), bad.clone()]),
+                ("bad,Z", vec![bad.clone(), z.clone()]),
+                ("O,Z,bad", vec![o.clone(), z.clone(), bad.clone()]),
+                ("Z,O,bad", vec![z.clone(), o.clone(), bad.clone()]),
+                ("O,bad,Z", vec![o.clone(), bad.clone(), z.clone()]),
+                ("bad,Z,O", vec![bad.clone(), z.clone(), o.clone()]),
+                ("Z,Z,bad", vec![z.clone(), z.clone(), bad.clone()]),
+            ];
+            if bname != "inflated" {
+                lists.push(("O,bad", vec![o.clone(), bad.clone()]));
+                if let Some(o2) = &o2 {
+                    lists.push(("O,O2,bad", vec![o.clone(), o2.clone(), bad.clone()]));
+                }
+            }
+            for (pat, ins) in lists {
+                let total: u64 = ins.iter().map(|s| s.amount).sum();
+                v.push(Candidate { edit: format!("input-list[{}]:{}", pat, bname), tx: make_tx(&ins, &[(att.public, total)], &att, ts, b"x"), tx2: None, control: false });
+            }
+        }
+        if let Some(o2) = &o2 {
+            v.push(Candidate { edit: "control:input-list[O,Z,O2]".into(), tx: make_tx(&[o.clone(), z.clone(), o2.clone()], &[(att.public, o.amount + o2.amount)], &att, ts, b"x"), tx2: None, control: true });
+        }
+    }
     // already spent on this chain (a genesis output of K1 spent by block 2)
     {
         let first = decode_block(&w.blocks[w.path(p.tip)[1]].bytes);
